@@ -267,6 +267,31 @@ func ops() []op {
 			}},
 		)
 	}
+	for _, ver := range gen.SXGVersions {
+		ver := ver
+		out = append(out, op{"Exchange.DumpExchangeHeaders/case-variant names/" + string(ver), func(o *mon.Rand) any {
+			h := http.Header{}
+			names := []pair{{"x-tag", "alpha"}, {"X-Tag", "beta"}, {"X-TAG", "gamma"}, {"Content-Type", "text/plain"}, {"x-other", "1"}}
+			for _, i := range o.Perm(len(names)) {
+				h[names[i].k] = []string{names[i].v}
+			}
+			return signedexchange.NewExchange(ver, "https://example.com/", "GET", http.Header{}, 200, h, []byte("p"))
+		}, func(in any, w io.Writer) error { return in.(*signedexchange.Exchange).DumpExchangeHeaders(w) }})
+	}
+	out = append(out, op{"Response.EncodeHeader/case-variant names", func(o *mon.Rand) any {
+		h := http.Header{}
+		names := []pair{{"x-tag", "alpha"}, {"X-Tag", "beta"}, {"a", "1"}}
+		for _, i := range o.Perm(len(names)) {
+			h[names[i].k] = []string{names[i].v}
+		}
+		return bundle.Response{Status: 200, Header: h}
+	}, func(in any, w io.Writer) error {
+		b, err := in.(bundle.Response).EncodeHeader()
+		if err == nil {
+			_, err = w.Write(b)
+		}
+		return err
+	}})
 	out = append(out, op{"SignedSubset.Encode", func(o *mon.Rand) any { return buildSubset(o) }, func(in any, w io.Writer) error {
 		b, err := in.(*signature.SignedSubset).Encode()
 		if err == nil {
@@ -480,11 +505,12 @@ func run(r *mon.Run) {
 	for _, o := range all {
 		in := o.build(mon.NewRand(0, "order-baseline", 0))
 		ev := record(0, o, "baseline", "baseline", in, &yieldingWriter{})
-		if ev.Err != "" {
-			r.HarnessFail("baseline of %s failed: %s", o.name, ev.Err)
-			return
-		}
+		// an operation may consistently refuse its input (e.g. two header names equal after case folding): then every
+		// call must refuse it; the model value is (refused?, output hash)
 		base[o.name] = ev.Hash
+		if ev.Err != "" {
+			base[o.name] = "refused"
+		}
 	}
 
 	reps, shuffles, batches := 50, 200, 10
@@ -740,12 +766,14 @@ func checkHistory(r *mon.Run, path string, base map[string]string) {
 		}
 		want := base[ev.Op]
 		outcome := "matches-baseline"
-		if ev.Err != "" {
+		if ev.Err != "" && want == "refused" {
+			outcome = "refused-like-baseline"
+		} else if ev.Err != "" {
 			outcome = "SERIALIZER-ERROR"
 			r.Violation(fmt.Sprintf("pure:%s:%s:error", ev.Op, ev.Phase), fmt.Sprintf("%s failed in phase %s (goroutine %d): %s", ev.Op, ev.Phase, ev.G, ev.Err), map[string]any{"event": ev})
 		} else if ev.Hash != want {
 			outcome = "OUTPUT-DIFFERS"
-			r.Violation(fmt.Sprintf("pure:%s:%s", ev.Op, phaseClass(ev.Phase)), fmt.Sprintf("%s produced different bytes in phase %s (input %s, goroutine %d): sha256 %s, baseline %s", ev.Op, ev.Phase, ev.Input, ev.G, ev.Hash[:16], want[:16]), map[string]any{"event": ev, "baseline_sha256": want})
+			r.Violation(fmt.Sprintf("pure:%s:%s", ev.Op, phaseClass(ev.Phase)), fmt.Sprintf("%s produced different bytes in phase %s (input %s, goroutine %d): sha256 %s, baseline %.16s", ev.Op, ev.Phase, ev.Input, ev.G, ev.Hash[:16], want), map[string]any{"event": ev, "baseline_sha256": want})
 		}
 		r.Eval(ev.Phase + ":" + outcome)
 		r.Distinct(ev.Op + "|" + ev.Phase)
